@@ -105,13 +105,23 @@ func runC07(c *mon.Ctx) {
 			shell.CreateAttr("ID", "_shell")
 			d.Root().AddChild(shell)
 		}
+		// a genuine, individually signed assertion as direct child next to the encrypted element: the Response must
+		// still be judged on the encrypted element too (a misplaced one is refused, not skipped)
+		companion := place != "direct" && r.IntN(2) == 0
+		if companion {
+			comp := sim.GenuineAssertion(w.Env, fmt.Sprintf("_c%08x", r.Uint32()))
+			comp.Sig = sim.DefaultSig(signer.Key, signer)
+			if cel, err := sim.AssertionElement(comp); err == nil {
+				d.Root().InsertChildAt(len(d.Root().Child)-1, cel)
+			}
+		}
 		attackerSignsResponse := r.IntN(4) == 0
 		if attackerSignsResponse {
 			ac := w.Atk[0]
 			sim.SignElementInDoc(d.Root(), sim.DefaultSig(ac.Key, ac))
 		}
 		doc := sim.DocString(d)
-		cs.Desc("plaintext=%s place=%s recip=%s %s attackerSignedResp=%v", pk, place, rc, spec, attackerSignsResponse)
+		cs.Desc("plaintext=%s place=%s recip=%s %s attackerSignedResp=%v companion=%v", pk, place, rc, spec, attackerSignsResponse, companion)
 		cs.Input([]byte(doc))
 		sp, _, _ := NewSP(base, signer)
 		sp.SPKeyStore = &RSAKeyStore{C: w.SPEnc}
